@@ -14,6 +14,9 @@ EquivW(lam, m, w, m2) == Add(w, Mul(Inv(lam), Sub(m, m2)))        \* TrapdoorKey
 
 \* commitments.Homomorphic on <<c, m, w>> triples
 TOp(k, a, b) == [c |-> Add(a.c, b.c), m |-> Add(a.m, b.m), w |-> Add(a.w, b.w)]
+\* one variadic call CommitmentOp(a, b1, ..., bk) / MessageOp / WitnessOp: the fold of the binary operation
+RECURSIVE TOpN(_, _, _)
+TOpN(k, a, bs) == IF Len(bs) = 0 THEN a ELSE TOpN(k, TOp(k, a, Head(bs)), Tail(bs))
 TInv(k, a) == [c |-> Neg(a.c), m |-> Neg(a.m), w |-> Neg(a.w)]
 TScal(k, a, s) == [c |-> Mul(s, a.c), m |-> Mul(s, a.m), w |-> Mul(s, a.w)]
 TReRand(k, a, r) == [c |-> Add(a.c, Mul(k.h, r)), m |-> a.m, w |-> Add(a.w, r)]
@@ -32,6 +35,8 @@ ECom(a, mu, r) == <<r, Add(mu, Mul(a, r))>>
 EOpens(a, c, mu, r) == c = ECom(a, mu, r)
 EAdd(x, y) == <<Add(x[1], y[1]), Add(x[2], y[2])>>
 ETOp(a, x, y) == [c |-> EAdd(x.c, y.c), m |-> Add(x.m, y.m), w |-> Add(x.w, y.w)]
+RECURSIVE ETOpN(_, _, _)
+ETOpN(a, x, ys) == IF Len(ys) = 0 THEN x ELSE ETOpN(a, ETOp(a, x, Head(ys)), Tail(ys))
 ETInv(a, x) == [c |-> <<Neg(x.c[1]), Neg(x.c[2])>>, m |-> Neg(x.m), w |-> Neg(x.w)]
 ETScal(a, x, s) == [c |-> <<Mul(s, x.c[1]), Mul(s, x.c[2])>>, m |-> Mul(s, x.m), w |-> Mul(s, x.w)]
 ETReRand(a, x, r) == [c |-> EAdd(x.c, <<r, Mul(a, r)>>), m |-> x.m, w |-> Add(x.w, r)]
